@@ -39,7 +39,7 @@ def race_companion(tier):
     """The clause 'shared state is never accessed without synchronisation': the same operations free-running on the
     unmodified code under the Go race detector (a sample of schedules; adjunct to the exhaustive search above).
     race:noreload = ingests + sweeper + connection handlers + stats + pipeline; race:reload adds OnReload."""
-    def key(sc, k):
+    def key(sc, k, text):
         return ("data-race:during-reload:" if sc == "race:reload" else "data-race:") + k
     return vlib.race_pass("c09race", RACE_INJECTS, "./internal/zzverif_c09race", ["race:noreload", "race:reload"],
                           budget=240 if tier == "thorough" else 40, keyfn=key)
